@@ -311,10 +311,10 @@ let () =
                 (match (try Some (op_of_name op) with Not_found -> None) with
                  | Some o when (match args o with Some O -> true | _ -> false) -> set (mk_nullary !a o)
                  | _ -> add_handle (-1))
-            | ("un" | "bin" | "remap" | "apply" | "opt" | "flatten" | "copy" | "saveload"), _
+            | ("un" | "bin" | "remap" | "apply" | "opt" | "flatten" | "copy" | "saveload" | "descend"), _
               when !noflags && (let hs = (match c, rest with
                                           | "un", [_; l] -> [l] | "bin", [_; l; r] -> [l; r]
-                                          | "remap", l -> l | "apply", l -> l
+                                          | "remap", l -> l | "apply", l -> l | "descend", [t; _] -> [t]
                                           | _, [t] -> [t] | _ -> []) in not (valid hs)) ->
                 add_handle (-1)
             | ("un" | "bin"), op :: _ when !noflags && (try ignore (op_of_name op); false with Not_found -> true) ->
@@ -322,6 +322,17 @@ let () =
             | "un", [op; _] when !noflags && (match args (op_of_name op) with Some (S O) -> false | _ -> true) -> add_handle (-1)
             | "bin", [op; _; _] when !noflags && (match args (op_of_name op) with Some (S (S O)) -> false | _ -> true) -> add_handle (-1)
             | "copy", [t] -> add_handle (h t)
+            | "descend", [t; k] ->
+                (* the handle moves to a child of its node: new handle on the child, old handle gone *)
+                let i = h t in
+                let k = int_of_string k in
+                let j = (match getn !a (nat_of_int i) with
+                         | NUnary (_, x) -> int_of_nat x
+                         | NBinary (_, x, y) -> int_of_nat (if k mod 2 = 0 then x else y)
+                         | NRemap (x, y, z, u) -> int_of_nat (List.nth [x; y; z; u] (k mod 4))
+                         | NApply (v, e, u) -> int_of_nat (List.nth [v; e; u] (k mod 3))
+                         | _ -> i) in
+                !handles.(int_of_string t) <- -1; add_handle j
             | "print", [_] -> ()
             | "delete", [t] -> !handles.(int_of_string t) <- -1
             | "saveload", [t] ->
